@@ -187,7 +187,9 @@ def compare(m, rich_steps, start_mid, fan_entered):
     probs = []
     lp, left = ledger_problems(theirs)
     probs += lp[:3]
-    if m.get("fanFail"):
+    if m.get("fanFail") or (m.get("execTimeout") and fan_entered):
+        # (a fan-out cut by the execution's time limit: the engine ends the execution from the first timer that fires and
+        # cancels the rest, the model lets every pending branch run into the limit: the ledger bound, as for a failure)
         cnt = lambda steps, k: sum(1 for _t, fr in steps for f in fr if f[0] == k)
         for k, what in (("e", "events"), ("q", "task requests")):
             if cnt(theirs, k) > cnt(mine, k):
